@@ -3,7 +3,6 @@ from .common import hx, rbytes, budget
 
 HARNESS = "c04"
 CONST_GROUPS = []
-READY = False
 RULE = ("one case = one session: reset <3-5 replicas> <volatile|durable|mixed>, then a random schedule of clock / add / del "
         "(ties and out-of-order clocks), sync (full snapshot through Encode+DecodeState), relay of the returned delta "
         "(same object or re-encoded), inject (single-entry state with explicit, also negative or tying, times), get and "
